@@ -8,7 +8,7 @@ ID = "C16"
 LEVEL = "exploration"
 BUDGET = {"quick": 50, "thorough": 900}
 QUICK_CASES = 2500  # generator items in the quick tier (fixed amount of work; BUDGET is then only a safety cap)
-FLOOR = {"quick": 800, "thorough": 4000}
+FLOOR = {"quick": 800, "thorough": 800}  # conclusive cases below which a run is inconclusive (the thorough tier is time-budgeted: same floor)
 TIMEOUT = 90
 REQUIRED_OBS = ["histories", "steps", "reads_checked", "writes_checked", "exceptions_agreed", "snapshots_rechecked", "external_changes", "attribute_preservation_checks", "priority_checks"]
 RULE = (
